@@ -146,6 +146,8 @@ def tlc(module, cfg, workers=None, env=None, timeout=1100, simulate=None, depth=
     if env and 'TRACE' in env and 'OUT' not in env and not simulate and os.path.exists(str(env['TRACE'])):
         h = hashlib.sha256()
         for p in sorted(glob.glob(os.path.join(SPEC, '*.tla'))):
+            if p.endswith('Proofs.tla'):
+                continue                  # proof modules are read by tlapm only
             with open(p, 'rb') as f:
                 h.update(f.read())
         cfgp = cfg if os.path.isabs(cfg) else os.path.join(SPEC, cfg)
